@@ -464,9 +464,120 @@ def classify(c, io):
 def trivial(c, io):
     return len(data_of(c)) == 0 if 'hostile' not in c else False
 
+# ------------------------------------------------------------------ adaptive search (search stage only: runs the implementation under test)
+KNOWN_REGIONS = {'raw': [], 'qcow2': ['header'], 'vhd': ['header'], 'vhdx': ['ident', 'header', 'metadata', 'vds'],
+                 'vmdk': ['header', 'descriptor', 'footer'], 'vdi': ['header'], 'qed': ['header'], 'iso': ['system_area', 'header'],
+                 'gpt': ['mbr'], 'luks': ['header']}
+
+def source_literals():
+    """bytes literals of length >= 4 in the format_inspector source under test (candidate magics behind which new code may hide)"""
+    import ast
+    m = insp_obs.fi()
+    out = []
+    try:
+        for node in ast.walk(ast.parse(open(m.__file__).read())):
+            if isinstance(node, ast.Constant) and isinstance(node.value, bytes) and 4 <= len(node.value) <= 64 and node.value not in out:
+                out.append(node.value)
+    except Exception:
+        pass
+    return out
+
+def probe(fmt, n, patches):
+    """regions the implementation creates that the model does not know: name -> (offset, length); the stream is fed as one chunk"""
+    m = insp_obs.fi()
+    insp = m.ALL_FORMATS[fmt]()
+    try:
+        insp.eat_chunk(render(n, patches))
+    except Exception:
+        pass
+    out = {}
+    for name, r in insp._capture_regions.items():
+        if name not in KNOWN_REGIONS[fmt] and isinstance(r.offset, int) and isinstance(r.length, int):
+            out[name] = (r.offset, r.length)
+    return out
+
+def adaptive_cases(fmt, patches, regions, label):
+    """the image with a tail >= 2 MiB behind the last structure, as ONE chunk, 1 MiB chunks and 512-byte chunks"""
+    ends = [o + min(max(l, 0), 4 * MI) for o, l in regions.values() if 0 <= o <= 8 * MI]
+    n = max(ends + [4096]) + 2 * MI + 4096 + 3
+    for sizes in ([n], [MI] * (n // MI), [512] * (n // 512)):
+        yield {'op': 'mem', 'fmt': fmt, 'n': n, 'bg': 'z', 'p': patches, 'sizes': sizes, 'cont': 0, 'fin': len(sizes) + 2, 'k': 'search:adaptive:' + label}
+
+def explore(fmt, patches, name, o, l, depth, seen, literals, out, budget):
+    """sweep the fields inside the unknown region [o, o + max(l, 1024)) (behind every candidate magic); follow regions that appear (depth <= 3)"""
+    if depth > 3 or o < 0 or o > 8 * MI: return
+    span = 1024 if l < 1024 else min(l, 4096)
+    n = o + span + 4096
+    level, sigs = [], set()
+    values = [0x20000, 0x30000, 0x40000, 0x7fffffff, 2**32 - 1, o + max(l, 0), o + max(l, 0) + 512, o + span + 1024]
+    for magic in [b''] + literals:
+        base = patches + ([P(o, magic)] if magic else [])
+        variants = []
+        for w in (4, 8):
+            for pos in range((len(magic) + w - 1) // w * w, 64, w):
+                for order in ('big', 'little'):
+                    for v in values:
+                        variants.append([P(o + pos, v.to_bytes(w, order))])
+        for order in ('big', 'little'):
+            for v in values:      # all fields at once (4-byte and 8-byte granularity), behind the magic
+                for w in (4, 8):
+                    start = (len(magic) + w - 1) // w * w
+                    variants.append([P(o + start, v.to_bytes(w, order) * ((span - start) // w))])
+        for var in variants:
+            budget[0] -= 1
+            if budget[0] < 0: break
+            pv = base + var
+            regs = probe(fmt, n, pv)
+            new = {k: v for k, v in regs.items() if k not in seen}
+            sig = tuple(sorted(new.items()))
+            if new and sig not in sigs:
+                sigs.add(sig)
+                level.append((fmt, pv, regs, '%s>%s' % (name, ','.join(new)), new))
+    level.sort(key=lambda t: -reach(t[2]))
+    out.extend(t[:4] for t in level)
+    for f, pv, regs, lab, new in level[:3]:            # pointer chasing: follow the most promising new regions
+        for k, (o2, l2) in list(new.items())[:2]:
+            explore(fmt, pv, k, o2, l2, depth + 1, seen | set(new), literals[:6], out, [budget[0] // 4])
+
+def reach(regs):
+    """announced bytes within reach of a few-MiB stream"""
+    return sum(min(max(l, 0), 4 * MI) for o, l in regs.values() if 0 <= o <= 8 * MI)
+
+def adaptive_search(rng):
+    literals = source_literals()
+    for fmt, (base, be, fields) in HDR_FIELDS.items():
+        order = 'big' if be else 'little'
+        n0, p0, _b = c01.BUILD[fmt](rng)
+        n0 = max(n0, base + 2048)
+        found = {}           # region name -> (patches, regions) with the smallest offset
+        for name, off, w in fields:
+            for v in (512, 1024, 2048, 4096, 65536):
+                if v >= 256**w: continue
+                pv = p0 + [P(base + off, v.to_bytes(w, order))]
+                for k, (o, l) in probe(fmt, n0 + 4096, pv).items():
+                    if k not in found or o < found[k][1][k][0]:
+                        found[k] = (pv, probe(fmt, n0 + 4096, pv))
+        for k, (o, l) in probe(fmt, n0 + 4096, p0).items():       # a region the valid image already gets
+            found.setdefault(k, (p0, probe(fmt, n0 + 4096, p0)))
+        for k, (pv, regs) in found.items():
+            yield from adaptive_cases(fmt, pv, regs, k)
+            out = []
+            explore(fmt, pv, k, regs[k][0], regs[k][1], 1, set(regs), literals, out, [60000])
+            out.sort(key=lambda t: -reach(t[2]))      # most announced bytes within reach first
+            for f, p2, r2, lab in out[:60]:
+                yield from adaptive_cases(f, p2, r2, lab)
+
 def search(rng, budget):
-    """cases aimed at the bound: long streams under maximal announced sizes"""
+    """cases aimed at the bound.  First adaptively: when the implementation creates regions the model does not know, sweep the fields
+    inside them (behind magics harvested from the source under test), follow the regions that appear, long tail, 1 / 1 MiB / 512-byte
+    chunks; then long streams under maximal announced sizes"""
     n = 0
+    try:
+        for c in adaptive_search(rng):
+            n += 1
+            yield c
+    except Exception:
+        pass
     while n < budget:
         for fmt, ln, bg, p, lab in own_hostile(rng, 'quick'):
             for sizes in big_chunkings(rng, ln, 'quick')[:2]:
